@@ -64,6 +64,12 @@ impl Node {
 // ------------------------------------------------------------------ rendering
 
 fn needs_flow_key(n: &Node) -> bool {
+    // an empty plain key cannot be written in block layout at an arbitrary indentation
+    if let Node::Scalar { text, sty: Sty::Plain, .. } = n {
+        if text.is_empty() {
+            return true;
+        }
+    }
     !matches!(n, Node::Scalar { sty: Sty::Plain | Sty::Single | Sty::Double, .. } | Node::Alias(_))
 }
 
@@ -105,6 +111,10 @@ fn render_scalar_inline(text: &str, sty: Sty) -> String {
     }
 }
 
+fn render_key(k: &Node) -> String {
+    render_flow(k)
+}
+
 /// Flow rendering (single line).  Block scalars degrade to double quotes here.
 pub fn render_flow(n: &Node) -> String {
     match n {
@@ -122,7 +132,7 @@ pub fn render_flow(n: &Node) -> String {
             let inner: Vec<String> = entries
                 .iter()
                 .map(|(k, v)| {
-                    let ks = render_flow(k);
+                    let ks = render_key(k);
                     let vs = render_flow(v);
                     // an alias key needs a space before ':' ; complex keys use the explicit form
                     if matches!(k, Node::Seq { .. } | Node::Map { .. }) {
@@ -195,7 +205,7 @@ fn render_block_value(n: &Node, ind: usize, out: &mut String) {
                 let p = props(&None, anchor);
                 if p.is_empty() { out.push('\n') } else { out.push_str(&format!(" {}\n", p.trim_end())) }
                 for (k, v) in entries {
-                    let ks = render_flow(k);
+                    let ks = render_key(k);
                     let sep = if matches!(k, Node::Alias(_)) || ks.is_empty() || matches!(k, Node::Scalar { text, .. } if text.is_empty()) { " :" } else { ":" };
                     out.push_str(&format!("{}{ks}{sep}", pad(ind + 2)));
                     render_block_value(v, ind + 2, out);
@@ -219,7 +229,7 @@ pub fn render_doc(n: &Node) -> String {
         Node::Map { entries, flow: false, anchor: None } if !entries.is_empty() && !entries.iter().any(|(k, _)| needs_flow_key(k)) => {
             let mut out = String::new();
             for (k, v) in entries {
-                let ks = render_flow(k);
+                let ks = render_key(k);
                 let sep = if matches!(k, Node::Alias(_)) || ks.is_empty() || matches!(k, Node::Scalar { text, .. } if text.is_empty()) { " :" } else { ":" };
                 out.push_str(&format!("{ks}{sep}"));
                 render_block_value(v, 0, &mut out);
@@ -438,6 +448,23 @@ impl<'a> Gen<'a> {
     }
 }
 
+/// saphyr represents a completely bare empty node as the plain scalar `~`, but an empty node that
+/// carries an anchor or tag as the plain scalar with empty text; a copy of the latter cannot be
+/// written without its properties.  Oracles that compare renderings skip such documents.
+pub fn has_anchored_empty_plain(n: &Node) -> bool {
+    match n {
+        Node::Scalar { text, sty: Sty::Plain, anchor: Some(_), .. } => text.is_empty(),
+        Node::Seq { items, .. } => items.iter().any(has_anchored_empty_plain),
+        Node::Map { entries, .. } => entries.iter().any(|(k, v)| has_anchored_empty_plain(k) || has_anchored_empty_plain(v)),
+        _ => false,
+    }
+}
+
+/// scalar text as the parser reports it (bare empty node = `~`)
+pub fn event_text(text: &str, sty: Sty, tag: &Option<String>, anchor: &Option<String>) -> String {
+    if text.is_empty() && sty == Sty::Plain && tag.is_none() && anchor.is_none() { "~".to_string() } else { text.to_string() }
+}
+
 /// true if some mapping of the tree has a plain untagged `<<` key (i.e. a merge key)
 pub fn has_merge_key(n: &Node) -> bool {
     match n {
@@ -445,6 +472,19 @@ pub fn has_merge_key(n: &Node) -> bool {
             matches!(k, Node::Scalar { text, sty: Sty::Plain, tag: None, .. } if text == "<<") || has_merge_key(k) || has_merge_key(v)
         }),
         Node::Seq { items, .. } => items.iter().any(has_merge_key),
+        _ => false,
+    }
+}
+
+/// `? {~: v} : w` is the crate's explicit-empty-key notation (the key reads as None, the value as v)
+pub fn has_explicit_empty_key(n: &Node) -> bool {
+    match n {
+        Node::Map { entries, .. } => entries.iter().any(|(k, v)| {
+            matches!(k, Node::Map { entries: ke, .. } if ke.len() == 1 && matches!(&ke[0].0, Node::Scalar { text, tag, .. }
+                if text.is_empty() || text == "~" || text.eq_ignore_ascii_case("null") || tag.as_deref() == Some("!!null")))
+                || has_explicit_empty_key(k) || has_explicit_empty_key(v)
+        }),
+        Node::Seq { items, .. } => items.iter().any(has_explicit_empty_key),
         _ => false,
     }
 }
